@@ -5,14 +5,9 @@ package main
 import (
 	"fmt"
 	"math/rand"
-	"reflect"
 	"strconv"
 	"strings"
-
-	fpgo "github.com/TeaEntityLab/fpGo/v2"
 )
-
-var _ = fpgo.NilType
 
 // every list over alphabet of length lo..hi
 func c20Lists(alphabet []string, lo, hi int, f func([]string)) {
@@ -104,17 +99,59 @@ func c20Comparable(p string) bool {
 	return !(strings.HasPrefix(p, "sl:") || strings.HasPrefix(p, "mp:") || strings.HasPrefix(p, "c/"))
 }
 
+// c20AtomJustKind: Maybe.Just(v).Kind() of an atom, from its encoding (the generator does not call fpGo)
+func c20AtomJustKind(enc string) int {
+	parts := strings.Split(enc, ":")
+	switch parts[0] {
+	case "nil", "np":
+		return 0
+	case "b":
+		return 1
+	case "i", "f":
+		return c20Atoi(parts[1], 2)
+	case "s", "ns":
+		return 24
+	case "st":
+		return 25
+	case "p":
+		return 22
+	case "sl":
+		return 23
+	case "mp":
+		return 21
+	}
+	return 0
+}
+
+// what the patterns will see of the CompData probes of c20Probes: the objects, or nil pointer
+var c20CompProbeObjs = map[string][]string{
+	"c/P.2.2.24/i:2:1,s:x":    {"i:2:1", "s:x"},
+	"c/N/nil":                 {"nil"},
+	"c/P.0/-":                 {},
+	"c/S.2.N.P.1.24/s:abc":    {"s:abc"},
+	"c/P.1.2/s:x":             {}, // does not match its type: the harness substitutes the zero CompData
+	"cp:1/P.2.2.24/i:2:1,s:x": {"i:2:1", "s:x"},
+	"cp:2/N/nil":              {"nil"},
+	"cp:4/S.2.N.P.1.22/p:0:1": {"p:0:1"},
+	"cp:5/P.0/-":              {},
+}
+
 // parameters of the five pattern kinds tuned to (tuned=true) / away from (false) a probe
 func c20PatFor(kind int, probe string, tuned bool) string {
-	h := c20NewHeap()
-	v := h.value(probe)
-	// the value the pattern will see
-	if cd, ok := v.(*fpgo.CompData); ok && cd != nil {
-		v = *cd
-	}
-	k := 0
-	if v != nil {
-		k = int(reflect.TypeOf(v).Kind())
+	objs, isComp := c20CompProbeObjs[probe]
+	isNil := probe == "nil" || strings.HasPrefix(probe, "np:") || probe == "cp:3/P.1.2/s:x"
+	k := 0 // reflect kind of the value the pattern sees
+	switch {
+	case isComp:
+		k = 25
+	case probe == "cp:3/P.1.2/s:x":
+		k = 22
+	case probe == "nil":
+		k = 0
+	case strings.HasPrefix(probe, "np:"):
+		k = 22
+	default:
+		k = c20AtomJustKind(probe)
 	}
 	switch kind {
 	case 0: // kind
@@ -135,11 +172,11 @@ func c20PatFor(kind int, probe string, tuned bool) string {
 		return "E:" + c20Sibling(probe)
 	case 2: // regex
 		if tuned {
-			if s, ok := v.(string); ok {
-				return "R:lit:" + s
+			if strings.HasPrefix(probe, "s:") {
+				return "R:lit:" + probe[2:]
 			}
-			if s, ok := v.(c20Str); ok {
-				return "R:full:" + string(s)
+			if strings.HasPrefix(probe, "ns:") {
+				return "R:full:" + probe[3:]
 			}
 			return "R:any"
 		}
@@ -149,18 +186,17 @@ func c20PatFor(kind int, probe string, tuned bool) string {
 		return "R:bad"
 	case 3: // sum type
 		if tuned {
-			if cd, ok := v.(fpgo.CompData); ok {
-				objs := c20Objects(cd)
+			if isComp {
 				ks := make([]string, len(objs))
 				for i, o := range objs {
-					ks[i] = strconv.Itoa(int(fpgo.Maybe.Just(o).Kind()))
+					ks[i] = strconv.Itoa(c20AtomJustKind(o))
 				}
 				if len(objs) == 0 {
 					return "T:S.2.N.P.0"
 				}
 				return "T:S.2.N.P." + strconv.Itoa(len(objs)) + "." + strings.Join(ks, ".")
 			}
-			if fpgo.IsNil(v) {
+			if isNil {
 				return "T:S.2.P.1.2.N"
 			}
 			return "T:P.1." + strconv.Itoa(k)
@@ -507,10 +543,9 @@ func c20Gen(tier string, rng *rand.Rand, emit func(string)) map[string]interface
 			os = "-"
 		}
 		// a product type tuned to the objects, possibly perturbed, inside a random sum
-		h := c20NewHeap()
 		ks := make([]string, n)
-		for j, o := range h.objs(os) {
-			ks[j] = strconv.Itoa(int(fpgo.Maybe.Just(o).Kind()))
+		for j, o := range objs {
+			ks[j] = strconv.Itoa(c20AtomJustKind(o))
 		}
 		if n > 0 && rng.Intn(3) == 0 {
 			ks[rng.Intn(n)] = strconv.Itoa(kindPool[rng.Intn(len(kindPool))])
